@@ -15,6 +15,7 @@ value trees on the line protocol, space separated tokens:
   <variant>: 1 = every trailing NUL of an EDE text is dropped on decoding (the working tree since the repair of
   `C02/fixpoint/EDE-text-ends-with-NUL`; this is the table's OPT entry); 0 = the code as shipped before (one NUL).
   The harness learns which one the working tree implements by replaying the witness.
+  c02.dispatch <class> <type>                                             →  <directory class> <mnemonic>  (`dns.rdata.get_rdata_class`)
   c02.wf                                                        →  per-type static status (for the evidence)
 -/
 namespace Driver
@@ -86,6 +87,10 @@ def handleC02 : List String → Option String
       if !okCtor then some "invalid"
       else if hasRelName raw && !(match o with | some org => isAbs org | none => false) then some "needabs"
       else some ("ok " ++ toHexP (e.encode o v))
+  | ["c02.dispatch", c, t] => do
+    let c ← c.toNat?; let t ← t.toNat?
+    let e := lookup c t
+    some (if e.mnemonic = "GENERIC" then "g GENERIC" else s!"{e.cls} {e.mnemonic}")
   | ["c02.wf"] => some (" ".intercalate (table.map statusLine))
   | ["c02.types"] => some (" ".intercalate (modelledTypes.map fun p => s!"{p.1}/{p.2}"))
   | _ => none
